@@ -396,3 +396,82 @@ Proof.
     replace (T * (E53 * E53 * P)) with (E53 * E53 * TP) by (subst TP; ring).
     unfold E53, G9 in *. lia.
 Qed.
+
+Lemma sat_time secs nanos : dur_in_domain secs nanos -> sat (MTime secs nanos) (render_duration secs nanos).
+Proof.
+  intros H. destruct (duration_close secs nanos H) as (ms & E & C). cbn [sat satb]. rewrite E. exact C.
+Qed.
+
+Lemma sat_seek_time m secs nanos : dur_in_domain secs nanos ->
+  sat (MSeekTime m secs nanos)
+      (match m with
+       | SeekAbsolute => render_duration secs nanos
+       | SeekForward => [43] ++ render_duration secs nanos
+       | SeekBackward => [45] ++ render_duration secs nanos
+       end).
+Proof.
+  intros H. destruct (duration_close secs nanos H) as (ms & E & C).
+  destruct m; cbn [sat satb app]; rewrite E; exact C.
+Qed.
+
+(* parameters the three time-taking commands are stated for: values a Duration can hold *)
+Definition params_in_domain (x : predef) : Prop :=
+  match x with
+  | PSeekTo _ secs nanos | PSeek _ secs nanos => dur_in_domain secs nanos
+  | _ => True
+  end.
+
+Lemma sat_groups l :
+  Forall2 sat (flat_map (fun g => [kw "group"; MTag g]) l)
+              (map arg_token (flat_map (fun g => [AStr (b "group"); tag_arg g]) l)).
+Proof.
+  induction l as [|g l IH]; cbn [flat_map map app]; [constructor|].
+  constructor; [apply sat_keyword|]. constructor; [apply sat_tag | exact IH].
+Qed.
+
+Lemma sat_tags l : Forall2 sat (map MTag l) (map arg_token (map tag_arg l)).
+Proof. induction l as [|g l IH]; cbn [map]; constructor; [apply sat_tag | exact IH]. Qed.
+
+Ltac sat1 :=
+  first [ apply sat_string | apply sat_keyword | apply sat_tag | apply sat_filter | apply sat_number
+        | apply sat_bool | apply sat_positions | apply sat_position | apply sat_relative | apply sat_volume ].
+Ltac sat_all :=
+  cbn [map arg_token app opt_args opt fst snd option_map range_of positions];
+  repeat (apply Forall2_cons; [sat1|]); try apply Forall2_nil.
+
+(* (d) for every constructor path: the command word is the documented one and every argument, in
+   the documented position, carries the documented meaning of the Rust value; the constructor
+   panics exactly where that is documented *)
+Theorem model_meets_spec x : params_in_domain x ->
+  match model x, spec x with
+  | None, None => True
+  | Some (w, args), Some (w', ms) => w = w' /\ Forall2 sat ms (map arg_token args)
+  | _, _ => False
+  end.
+Proof.
+  intros Hd. destruct x; cbn [model spec]; try exact I;
+    try (split; [reflexivity | sat_all; fail]).
+  all: try (destruct s; cbn [queue_range_command play_command song_word fst snd]; split; try reflexivity; sat_all; fail).
+  - (* SetSingle *) destruct m; split; try reflexivity; constructor; try constructor; reflexivity.
+  - destruct m; split; try reflexivity; constructor; try constructor; reflexivity.
+  - (* SeekTo *) destruct s; cbn [seek_to_command song_word fst snd]; split; try reflexivity;
+      (constructor; [apply sat_number | constructor; [apply sat_time; exact Hd | constructor]]).
+  - (* Seek *) split; [reflexivity|]. constructor; [|constructor]. apply (sat_seek_time m secs nanos Hd).
+  - (* Add *) destruct pos; split; try reflexivity; sat_all.
+  - (* Move *) destruct from as [id|p|lo hi]; [| | destruct hi]; try exact I; split; try reflexivity; sat_all.
+  - (* Find *) destruct sort, window; split; try reflexivity; sat_all.
+  - (* List *) split; [reflexivity|]. unfold list_command. cbn [snd map arg_token tag_arg].
+    constructor; [apply sat_tag|]. rewrite map_app. apply Forall2_app; [|apply sat_groups].
+    destruct f; sat_all.
+  - (* CountGrouped *) destruct f; split; try reflexivity; sat_all.
+  - (* Load *) destruct r; split; try reflexivity; sat_all.
+  - (* AddToPlaylist *) destruct pos; split; try reflexivity; sat_all.
+  - (* ListAllIn.directory *) destruct d; split; try reflexivity; sat_all.
+  - (* TagTypes.disable *) destruct l as [|t l]; [exact I|]. split; [reflexivity|].
+    cbn [tag_types_command snd map arg_token]. constructor; [apply sat_keyword|]. apply (sat_tags (t :: l)).
+  - destruct l as [|t l]; [exact I|]. split; [reflexivity|].
+    cbn [tag_types_command snd map arg_token]. constructor; [apply sat_keyword|]. apply (sat_tags (t :: l)).
+  - (* StickerFind *) destruct flt as [[o v]|]; [destruct o|]; split; try reflexivity; sat_all.
+  - destruct uri; split; try reflexivity; sat_all.
+  - destruct uri; split; try reflexivity; sat_all.
+Qed.
